@@ -349,8 +349,25 @@ WORDS = ['a', 'of', 'the', 'lazy', 'quick', 'it\'s', '"quoted"', 'caf\xe9', 'na\
          'tab\there', 'end.', 'semi;colon', 'under_score', 'hy-phen', '\U0001F600', 'é', '\x00', '1234567890' * 2]
 
 
+VERY_LONG = [
+    # sizes the random family (30..300 characters) never reaches: an unbroken run of several hundred characters after some
+    # text, a lone run, many pieces, many escapes, a long whitespace run
+    'Authorization: Bearer ' + 'A1b2' * 100,
+    'key=' + '0123456789abcdef' * 20 + ' tail words here',
+    'x' * 700,
+    ('word ' * 150).strip(),
+    'pre ' + ' ' * 300 + 'post',
+    ('\\n\\t"' + "'") * 40,
+    b'sig ' + b'QUJD' * 90,
+    b'\\x00\\xff ' * 60,
+    'it\'s "mixed" ' * 30 + 'Z' * 280,
+]
+
+
 def random_long(seed, i):
     rng = random.Random('c02:%d:%d' % (seed, i))
+    if i < len(VERY_LONG):
+        return VERY_LONG[i]
     kind = i % 6
     n = rng.randint(30, 300)
     if kind == 0:      # words separated by single / multiple blanks and newlines
